@@ -381,7 +381,9 @@ class OfxgetWorld:
         run.stdout = out.getvalue()
         run.file_after = self.file_bytes()
         cfg_after = {k: v for k, v in self.fs.walk_files().items() if k.startswith(simfs.ROOT + "/cfg/")}
-        run.cfg_changed = sorted(k for k in set(cfg_before) | set(cfg_after) if cfg_before.get(k) != cfg_after.get(k))
+        # (files that are empty afterwards - lock files - store nothing)
+        run.cfg_changed = sorted(k for k in set(cfg_before) | set(cfg_after)
+                                 if cfg_before.get(k) != cfg_after.get(k) and (cfg_after.get(k) or k == CFGFILE))
         sim.log(f"run{run.n}: " + ("ok" if run.ok else "failed: " + run.exc)
                 + (" (config file changed)" if run.file_after != run.file_before else ""))
         self.net.current_op = None
@@ -430,7 +432,7 @@ class OfxgetWorld:
         # L1 (precondition): the settings can be put together at all.  Reading the command line and the files may
         # fail only because no URL is set anywhere
         if run.ok is False and run.stage in ("load", "argv", "merge"):
-            if not (run.stage == "merge" and null(expect["url"]) and "Missing URL" in (run.exc or "")):
+            if not (run.stage == "merge" and null(expect["url"])):
                 self.violate("C18", "L1-precedence", "settings-unusable",
                              f"run{run.n}: no effective settings at all - {run.stage} stage fails with {run.exc} "
                              f"(a URL is set by: {src['url']})", stage=run.stage)
